@@ -6,24 +6,29 @@ import (
 
 // indSpec: how the grids configure one entry of the harness indicator table.
 type indSpec struct {
-	name    string
-	nper    int  // number of integer periods
-	nin     int  // input streams
-	ordered bool // documented constraint cfg[0] <= cfg[1]
-	minP    int  // smallest admissible period (default 1)
-	heavy   bool // forks on window orderings (search tree): smaller grids
-	nonlin  bool // nonlinear real arithmetic in the scaling check: smaller C18 grid
-	c15     bool // has a documented range / ordering / non-negativity
-	noDeg   bool // no homogeneity degree tabulated
-	sorted3 bool // documented constraint cfg[0] <= cfg[1] <= cfg[2]
-	dflt    [3]int // the default configuration (zero = not used): checked around its warm-up
-	depMinP int  // smallest period at which outputs depend on the newest input (default 1)
-	qDn, qP int  // quick-tier overrides of the dn / period bounds (0 = none)
-	tDn, tP int  // thorough-tier overrides
+	name       string
+	nper       int      // number of integer periods
+	nin        int      // input streams
+	ordered    bool     // documented constraint cfg[0] <= cfg[1]
+	minP       int      // smallest admissible period (default 1)
+	heavy      bool     // forks on window orderings (search tree): smaller grids
+	nonlin     bool     // nonlinear real arithmetic in the scaling check: smaller C18 grid
+	c15        bool     // has a documented range / ordering / non-negativity
+	noDeg      bool     // no homogeneity degree tabulated
+	cfgQ, cfgT [][3]int // explicit configuration lists (quick / thorough) replacing the enumeration
+	sorted3    bool     // documented constraint cfg[0] <= cfg[1] <= cfg[2]
+	dflt       [3]int   // the default configuration (zero = not used): checked around its warm-up
+	depMinP    int      // smallest period at which outputs depend on the newest input (default 1)
+	qDn, qP    int      // quick-tier overrides of the dn / period bounds (0 = none)
+	tDn, tP    int      // thorough-tier overrides
 }
 
 var indSpecs = []indSpec{
 	{name: "Sma", dflt: [3]int{50, 0, 0}, nper: 1, nin: 1}, {name: "Ema", dflt: [3]int{20, 0, 0}, nper: 1, nin: 1}, {name: "Macd", dflt: [3]int{12, 26, 9}, nper: 3, nin: 1, ordered: true}, {name: "Atr", dflt: [3]int{14, 0, 0}, nper: 1, nin: 3, c15: true},
+	// symbolic real-valued settings (one query covers every value of the setting)
+	{name: "StochasticRsi2", nper: 2, nin: 1, heavy: true, c15: true, nonlin: true, qDn: 1, tDn: 2,
+		cfgQ: [][3]int{{2, 2, 0}, {3, 2, 0}}, cfgT: [][3]int{{2, 2, 0}, {3, 2, 0}, {2, 3, 0}}},
+	{name: "EmaS", nper: 1, nin: 1}, {name: "EnvelopeSmaP", nper: 1, nin: 1, c15: true}, {name: "NviI", nper: 0, nin: 2},
 	// trend A
 	{name: "Apo", dflt: [3]int{14, 30, 0}, nper: 2, nin: 1, ordered: true}, {name: "Aroon", nper: 1, nin: 2, heavy: true, c15: true, depMinP: 2, qDn: 3, tDn: 4}, {name: "Bop", nper: 0, nin: 4, c15: true},
 	{name: "Cci", dflt: [3]int{20, 0, 0}, nper: 1, nin: 3, minP: 2}, {name: "Dema", dflt: [3]int{20, 20, 0}, nper: 2, nin: 1}, {name: "EnvelopeSma", dflt: [3]int{20, 0, 0}, nper: 1, nin: 1, c15: true}, {name: "EnvelopeEma", dflt: [3]int{20, 0, 0}, nper: 1, nin: 1, c15: true},
@@ -57,6 +62,12 @@ var indSpecs = []indSpec{
 
 // configs enumerates period configurations with all periods in [minP, maxP].
 func (s indSpec) configs(maxP int) [][3]int {
+	if s.cfgQ != nil {
+		if maxP > 3 && s.cfgT != nil || s.heavy && maxP > 2 && s.cfgT != nil {
+			return s.cfgT
+		}
+		return s.cfgQ
+	}
 	lo := s.minP
 	if lo == 0 {
 		lo = 1
@@ -194,7 +205,7 @@ func init() {
 			}
 			return indBoundsQ
 		},
-		outside:     "longer inputs, larger periods, non-default real-valued settings (smoothing constants, multipliers), float32/integer instantiations, floating-point rounding; positions whose documented formula divides by zero",
+		outside:     "longer inputs, larger periods, non-default real-valued settings other than the symbolic EMA smoothing / envelope percentage / NVI initial value (entries EmaS, EnvelopeSmaP, NviI), float32/integer instantiations, floating-point rounding; positions whose documented formula divides by zero",
 		assumptions: append([]string{realModeNote, "oracle: the doc-comment formulas in harness/h/ind_*.go (DESIGN.md Appendix A)", "sqrt(t) is a fresh s >= 0 with s*s = t (t >= 0 assumed)"}, commonAssumptions...),
 		cases: func(tier string, pr *prober) []sym.CaseSpec {
 			o := indOpts(tier)
